@@ -515,6 +515,8 @@ func main() {
 		"unhooked_map_sites":            rst.MapSitesUnhooked,
 		"chan_sends_hooked":             rst.ChanSendsHooked,
 		"chan_ops_unhooked":             rst.ChanOpsUnhooked,
+		"package_vars_reset":            rst.PkgVarsReset,
+		"package_vars_not_reset":        rst.PkgVarsNotReset,
 		"violation_signatures":          violCount,
 		"known_findings_hit":            knownHit,
 		"race_pass":                     raceInfo,
